@@ -11,6 +11,8 @@ Decided (necessary structural conditions only; this and C20 are the weakest clai
   C01.corr     channel decorrelation: for every channel assignment the encoder emits (which channel, which depth) in the
                slots the decoder reads them from, in both the fast and the exhaustive search; difference = left - right,
                average = (left + right) >> 1; the decoder reads the side channel with one extra bit in the same slot
+  C01.carve    a seek table inserted at finalize takes its total size (block header included) out of the padding, on the
+               Some edge of the checked subtraction only: the rewritten metadata never grows over the first frame (shared with C09)
   C01.cache    reusable scratch buffers and bit recorders are cleared before they are refilled
   C01.md5      (see C08/C09) ; C01.panic  engine B over the writers' entry points
 Not decided: numerical equality of reconstructed samples; LPC quantisation; Rice parameter choice.
@@ -300,6 +302,10 @@ def run(ctx, rep):
                 rep.check("C01.corr", "decoder %s (%s): extra-bit subframe in slot %d" % (arm, "bps < 32" if br == "Some" else "bps = 32", want.index(True)), seq == want, loc_of(rb), str(seq),
                           "decoder reads %s with the extra side bit in %s, the encoder emits it in slot %d" % (arm, seq, want.index(True)))
         rep.floor("C01.corr", "decoder slot rows", nd, 6)
+
+    # ---- C01.carve: a seek table inserted at finalize must take exactly its own total size (header + body) from the padding
+    from rules import C09
+    C09.carve_rules(F, ok, rep, "C01")
 
     # ---- C01.cache / C01.panic -------------------------------------------------------------------------------------------
     cachelib.cache_rules(ctx, rep, "C01")
